@@ -15,7 +15,11 @@
       a multi-digest FindMissing, but outside the reduced bound (refreshes
       for later digests of the call age the earlier ones).
     Clauses 2/3/4: an immediately repeated Get / single-digest FindMissing /
-    multi-digest FindMissing writes data (4 = finding F8). *)
+    multi-digest FindMissing writes data (4 = finding F8).  Clause 7 (finding
+    F12): the repeated Get writes data and blocks were allocated while the
+    first Get's reader was open (same mechanism as F10: the object is placed
+    when the reader is obtained, and has aged again by the time the read
+    completes). *)
 From BBS Require Import Common.Sx Store.Model Run.RStore Run.R01.
 Open Scope Z_scope.
 
@@ -78,8 +82,13 @@ Definition m05_step (w : world) (m : m05) (x : op * (state * state * out) * sx) 
       if Z.eqb (ob_kind o) 1 then
         m_setprev (m_setgets m ((tid, ((ob, i), pb)) :: t_gets m))
                   (match t_prev m with
-                   | Some (OGetOpen _ ob' i', true, _) =>
-                       if Nat.eqb ob ob' && Nat.eqb i i' then Some (OGetOpen tid ob i, false, ob_writes o) else None
+                   | Some (OGetOpen _ ob' i', true, pbo) =>
+                       if Nat.eqb ob ob' && Nat.eqb i i' && (0 <=? ob_writes o)
+                       then (* blocks allocated while the first Get's reader was open have aged
+                               the object since it was placed: the repeat is judged by clause 7 *)
+                            Some (OGetOpen tid ob i, false,
+                                  if pbo <? Z.of_nat (s_pushbacks s0) then - (1 + ob_writes o) else ob_writes o)
+                       else None
                    | _ => None
                    end)
       else
@@ -92,12 +101,14 @@ Definition m05_step (w : world) (m : m05) (x : op * (state * state * out) * sx) 
           (* repeat: previous op was GetOpen of the same object marked "repeat of a successful Get" *)
           let m2 := match t_prev m with
                     | Some (OGetOpen tid' _ _, false, w0) =>
-                        if Nat.eqb tid tid' && ob_ok o && (0 <=? ob_writes o) && (0 <? w0 + ob_writes o)
-                        then m_viol m1 [2] else m1
+                        let aged := w0 <? 0 in
+                        let w0' := if aged then - (1 + w0) else w0 in
+                        if Nat.eqb tid tid' && ob_ok o && (0 <=? ob_writes o) && (0 <? w0' + ob_writes o)
+                        then m_viol m1 [if aged then 7 else 2] else m1
                     | _ => m1
                     end in
           if ob_ok o then m_setprev (m_late_get (m_touch m2 oi pb_open) oi pb)
-                                    (Some (OGetOpen tid (fst oi) (snd oi), true, 0))
+                                    (Some (OGetOpen tid (fst oi) (snd oi), true, Z.of_nat pb_open))
           else m_setprev m2 None
       | None => m_setprev m None
       end
